@@ -791,7 +791,8 @@ pub fn run_c11cli(ctx: &mut Ctx, from: u64, to: u64) {
                 }
             }
         }
-        if k % 6 == 4 {
+        if k % 6 == 0 {
+            // (k % 6 == 0: a tokenized LF corpus trained with normalisation on)
             // a line made of kana and of characters the normaliser maps to others of the same UTF-8 width
             // (no character that grows under normalisation), every token tagged
             let cs: Vec<char> = "｢あ｣､い～―う".chars().collect();
